@@ -60,11 +60,14 @@ def spec(a1, a2, whole='row', cross=True):
         # and the second rectangle overlaps the array formula's spill without its anchor
         d2['C1'] = '=SUM({B1D}A5:J5)' if whole != 'col' else '=SUM({B1D}A1:A3)'
         d2['C2'] = '=SUM({B1D}B2:C2)'
-    return {B1: {'DATA': data, 'CALC': calc, ODD: {'A1': a2, 'A2': '=@A1*2'}}, B2: {'DATA': d2}}, {B1: {'RATE': 'DATA!$A$3'}}
+    d2['C3'] = '={TAX}*3'                              # book2 has a defined name of its own ...
+    if cross:
+        calc['C4'] = '={B2}C3+1'                       # ... reached from book1 through a cross-workbook reference
+    return {B1: {'DATA': data, 'CALC': calc, ODD: {'A1': a2, 'A2': '=@A1*2'}}, B2: {'DATA': d2}}, {B1: {'RATE': 'DATA!$A$3'}, B2: {'TAX': 'DATA!$A$2'}}
 
 
 def _file_formula(f):
-    return f.replace('@', '').replace('{DATA}', 'DATA!').replace('{CALC}', 'CALC!').replace('{RATE}', 'RATE') \
+    return f.replace('@', '').replace('{DATA}', 'DATA!').replace('{CALC}', 'CALC!').replace('{RATE}', 'RATE').replace('{TAX}', 'TAX') \
         .replace('{B2}', "'[%s]DATA'!" % B2).replace('{B1D}', "'[%s]DATA'!" % B1).replace('{OB}', "'%s'!" % q(ODD))
 
 
@@ -99,7 +102,7 @@ def as_dict(a1, a2, whole='row', cross=True):
             for ref, v in cells.items():
                 if isinstance(v, str) and v.startswith('='):
                     v = v.replace('@', own).replace('{DATA}', "'[%s]DATA'!" % B1).replace('{CALC}', "'[%s]CALC'!" % B1) \
-                        .replace('{RATE}', "'[%s]'!RATE" % B1).replace('{B2}', "'[%s]DATA'!" % B2).replace('{B1D}', "'[%s]DATA'!" % B1) \
+                        .replace('{RATE}', "'[%s]'!RATE" % B1).replace('{TAX}', "'[%s]'!TAX" % B2).replace('{B2}', "'[%s]DATA'!" % B2).replace('{B1D}', "'[%s]DATA'!" % B1) \
                         .replace('{OB}', "'[%s]%s'!" % (B1, q(ODD)))
                 out[own + ref] = v
         for n, target in names.get(book, {}).items():
